@@ -1,0 +1,6 @@
+//go:build verif
+
+package bech32
+
+// VerifPolymod exposes bech32Polymod to the runtime monitors in /verif.
+func VerifPolymod(values []byte) int { return bech32Polymod(values) }
